@@ -34,8 +34,8 @@ def run(ctx: Ctx) -> int:
         [(m, lay) for m in ("nonce", "DH", "ECDH_P256", "ECDH_P384") for lay in ("in_envelope", "trailing")] * 2)]
     rows: list[dict] = []
 
-    def add(tg: blobfuzz.Target, data: bytes, fields: list[str], kinds: list[str], what: str, allowed: list[str]) -> None:
-        res, exc, _, _ = tg.unprotect(data, kdf_budget=400)
+    def add(tg: blobfuzz.Target, data: bytes, fields: list[str], kinds: list[str], what: str, allowed: list[str], cache: t.Any = None) -> None:
+        res, exc, _, _ = tg.unprotect(data, kdf_budget=400, cache=cache)
         if res in ("kdf_budget", "step_budget"):
             res = "error"
         rows.append({"id": len(rows), "kind": "tamper", "layout": tg.layout, "mode": tg.mode, "hash": tg.h, "fields": fields, "kinds": kinds, "what": what,
@@ -61,6 +61,41 @@ def run(ctx: Ctx) -> int:
             data, sites = blobfuzz.apply(tg.blob, rng, tg.fields, list(key[1]), in_envelope=(layout == "in_envelope"))
             add(tg, data, [f for f, _ in key[1]], [k for _, k in key[1]], f"sites {[(s[0], s[2]) for s in sites]}", paths[key])
             ctx.distinct((mode, layout, key[1]))
+        # a second valid blob under the same key material; fields of one spliced into the other, decrypted through ONE
+        # long-lived cache that has already decrypted both valid blobs (history must not make a forgery succeed)
+        import dpapi_ng
+
+        shared = tg.fresh_cache()
+        if mode == "nonce":
+            other_pt = rng.randbytes(len(tg.pt)) if tg.pt else b"x"
+            other = dpapi_ng.ncrypt_protect_secret(other_pt, blobfuzz.SID, root_key_identifier=tg.rkid, cache=shared)
+            if layout == "trailing":
+                from dpapi_ng._blob import DPAPINGBlob
+
+                other = DPAPINGBlob.unpack(other).pack(blob_in_envelope=False)
+            other = bytes(other)
+            of = blobfuzz.field_ranges(other)
+            if dpapi_ng.ncrypt_unprotect_secret(other, cache=shared) != other_pt or dpapi_ng.ncrypt_unprotect_secret(tg.blob, cache=shared) != tg.pt:
+                raise MachineryError("shared-cache warm-up failed")
+            for combo in (["wrapped_cek"], ["gcm_nonce"], ["kid_key_info"], ["ciphertext"], ["tag"], ["wrapped_cek", "kid_key_info"], ["wrapped_cek", "gcm_nonce"],
+                          ["ciphertext", "tag"], ["wrapped_cek", "kid_key_info", "gcm_nonce"], ["kid_key_info", "gcm_nonce", "ciphertext", "tag"]):
+                b = bytearray(tg.blob)
+                ok = True
+                for fld in combo:
+                    (a0, a1), (b0, b1) = tg.fields[fld][0], of[fld][0]
+                    if a1 - a0 != b1 - b0:
+                        ok = False
+                        break
+                    b[a0:a1] = other[b0:b1]
+                if ok:
+                    for rep in range(2):
+                        add(tg, bytes(b), combo, ["substitute"] * len(combo), f"splice {combo} from another valid blob (shared cache)", ["error", "plain_ok"], cache=shared)
+                    add(tg, bytes(b), combo, ["substitute"] * len(combo), f"splice {combo} from another valid blob (fresh cache)", ["error", "plain_ok"])
+            # tampered variants of the already-decrypted blob through the same shared cache
+            for bit in rng.sample(range(len(tg.blob) * 8), 300):
+                b = bytearray(tg.blob)
+                b[bit // 8] ^= 1 << (bit % 8)
+                add(tg, bytes(b), [blobfuzz.field_of(tg.fields, bit // 8)], ["flip"], f"bit {bit} (shared cache)", ["error", "needs_network", "plain_ok"], cache=shared)
         # byte substitutions / insertions / deletions at random positions, 3-site mutations
         for _ in range(ctx.pick(600, 6000)):
             b = bytearray(tg.blob)
